@@ -10,6 +10,10 @@ pub struct SearcherSpec {
     pub opts: BuildOpts,
     /// use `packed::Searcher` instead of an automaton
     pub packed: bool,
+    /// packed::Config variation: 0 default, 1 only Rabin-Karp, 2 only Teddy,
+    /// 3 fat Teddy, 4 128-bit Teddy, 5 no heuristic pattern limits
+    #[serde(default)]
+    pub packed_cfg: u8,
 }
 
 /// Where an operation's haystack lives.
